@@ -43,6 +43,21 @@ def rand_mag(rng, maxlimbs):
     return v
 
 
+def rand_runs(rng, nl):
+    """A magnitude of nl limbs made of RUNS of equal limbs (ffffffff.., 0.., 1.., a random limb): long carry / borrow
+    ripples, all-ones against sparse values."""
+    v, i = 0, 0
+    while i < nl:
+        limb = rng.choice([0xffffffff, 0xffffffff, 0, 0, 1, 0xfffffffe, rng.getrandbits(32)])
+        ln = rng.choice([1, 2, 3, 5, 8, 12, 20, 40])
+        for _ in range(min(ln, nl - i)):
+            v |= limb << (32 * i)
+            i += 1
+    if rng.random() < 0.5:
+        v |= 1 << (32 * nl - 1)
+    return v or 1
+
+
 def rand_int(rng, maxlimbs):
     v = rand_mag(rng, maxlimbs)
     return -v if rng.random() < 0.5 else v
